@@ -6,7 +6,7 @@ both = ("quick", "thorough"); th = ("thorough",)
 QUICK = [0, 1, 2, 3, 8, 9, 16, 17, 26, 29]
 MANIFEST = dict(
     category="other",
-    text="hash = trig layer ; discretisation tail ; z-order codec, joined by contracts. (1) xpm1_and_q: for every double |lon| <= 200 the quarter is the right one and the in-quarter coordinate is in [-1,1] (complete; this is the obligation the original code failed for |lon| >= 2pi). (2) trig layer d0h_lh_in_d0c with cos/sin replaced by range/threshold facts: base cell < 12, row consistent with the latitude region, rotated coordinates u=h+l, v=h-l in [+0,2] -- proved for the equatorial region, time-bounded refutation search in the polar caps (one double product; CBMC does not finish). (3) tail, per depth, for EVERY triple allowed by (2): hash < 12*4^d, base cell kept, and containment in strip form i*s <= u < (i+1)*s, j*s <= v < (j+1)*s (s = 2/nside, exact) with the clamp on the base-cell border, no overflow/cast/shift check can fail (so debug and release agree). (4) codec contract (C04). (5) latitude outside [-pi/2,pi/2] or NaN must panic, every depth. Quick: depths {0,1,2,3,8,9,16,17,26,29}; thorough: all 30.",
+    text="hash = trig layer ; discretisation tail ; z-order codec, joined by contracts. (1) xpm1_and_q: for every double |lon| <= 200 the quarter is the right one and the in-quarter coordinate is in [-1,1] (complete; this is the obligation the original code failed for |lon| >= 2pi). (2) trig layer d0h_lh_in_d0c with cos/sin replaced by range/threshold facts: base cell < 12, row consistent with the latitude region, rotated coordinates u=h+l, v=h-l in [+0,2] -- proved for the equatorial region, time-bounded refutation search in the polar caps (one double product; CBMC does not finish); in the equatorial region the base cell is proved to be one of the four base cells meeting the longitude quarter (integers only), the exact position oracle (l, h relative to the base-cell centre) and the quadrant mapping are searches. (3) tail, per depth, for EVERY triple allowed by (2): hash < 12*4^d, base cell kept, and containment in strip form i*s <= u < (i+1)*s, j*s <= v < (j+1)*s (s = 2/nside, exact) with the clamp on the base-cell border, no overflow/cast/shift check can fail (so debug and release agree). (4) codec contract (C04). (5) latitude outside [-pi/2,pi/2] or NaN must panic, every depth. Quick: depths {0,1,2,3,8,9,16,17,26,29}; thorough: all 30.",
     note="Relative to libm facts (range of sin; thresholds of cos in the caps), listed; position -> (u,v) exactness of the projection formulae is not decided (no real-number semantics for sin/cos in any installed verifier); strips => diamond is plain arithmetic (DESIGN 2.2b-3).",
     technique="Kani contracts/stubs (CBMC, IEEE-754 bit-precise) on the real hash code: full-domain harness for xpm1_and_q, contract-stubbed trig layer, per-depth tail in strip form",
 )
